@@ -25,6 +25,7 @@ ASSUMPTIONS = ["behaviour after a second CER on one connection is unspecified (m
                "elapsed > timeout, measured from accept (inbound) / from dial..CER written (outbound)",
                "after a 5010 rejection the connection may or may not be closed by the CER timeout (statement silent)"]
 TIMEOUT = {"quick": 900, "thorough": 3600}
+SCTP_CLONES = {"quick": ['rand3', 'timing', 'apps'], "thorough": ['rand10', 'rand11', 'timing', 'apps', 'exh15']}
 
 LETTERS = ["CERk", "CERu", "CERn", "CERr", "CEA2", "CEA3", "CEA5", "DWR", "DWA", "DPR", "DPA", "REQ", "ANS", "ADV"]
 
